@@ -61,6 +61,26 @@ def exhaustive_single(depth):
     return out
 
 
+def cfgs_mixed(kind):
+    """A on a grid, B on the grid's graph, C on a graph with self-loops: one engine object switching between the grid and the
+    graph implementation of the native simulation (two different C++ objects behind one set of entry points)."""
+    base = LC_CFGS_G if kind == "gillespie" else LC_CFGS
+    return {"A": dict(base["A"], space="grid"), "B": dict(base["B"], space="graph"), "C": dict(base["C"], space="graphloop")}
+
+
+def exhaustive_switching(depth):
+    """All lifecycle-respecting sequences of `depth` calls over {setup A (grid), setup B (graph), finalize, iterate, get_output}."""
+    alpha = [("setup", "A"), ("setup", "B"), ("finalize",), ("iterate",), ("get_output",)]
+    out = []
+    for seq in itertools.product(alpha, repeat=depth):
+        if seq[0][0] != "setup":
+            continue
+        calls = [_call(s, "e1") for s in seq]
+        if respecting(calls):
+            out.append(calls)
+    return out
+
+
 def exhaustive_double(depth):
     """All lifecycle-respecting sequences of `depth` calls over two objects after 'e1.setup(A)'."""
     syms = [(s, o) for o in ("e1", "e2") for s in ALPHABET1]
